@@ -9,6 +9,7 @@
     exact values), for ARBITRARY coefficient values [coef].
     [admissible]: every divisor met is non-zero, every argument of sqrt / ** is positive, every
     atom that stands for a divisor or a parameter is non-zero (satisfiable: thorough/Admissible.v). *)
+Set Warnings "-ambiguous-paths,-notation-overridden".
 From Coq Require Import ZArith QArith Qreals Reals List Bool.
 From Coquelicot Require Import Coquelicot.
 From Gen Require Import GenThermo GenTraced.
